@@ -126,6 +126,9 @@ pub struct PanicRecord {
     pub location: String,
     pub virt_ms: u64,
     pub task: String,
+    /// for a panic located in a dependency: the innermost frame of the crate under test through
+    /// which it was reached (`None` if the harness called the dependency itself)
+    pub via_repo: Option<String>,
 }
 
 pub struct RunCtx {
@@ -378,6 +381,11 @@ pub fn install_panic_hook(verbose: bool) {
                 "<non-string panic payload>".to_string()
             };
             let location = info.location().map(|l| format!("{}:{}", l.file(), l.line())).unwrap_or_default();
+            let via_repo = if location_in_repo(&location) || location.starts_with("src/") || location.contains("/verif/sim/") {
+                None
+            } else {
+                innermost_repo_frame(&std::backtrace::Backtrace::force_capture().to_string())
+            };
             let virt_ms = VIRT_MS.with(|v| v.try_borrow().map(|v| *v).unwrap_or(0));
             let task = TASK_NAME.with(|t| t.try_borrow().map(|t| t.clone()).unwrap_or_default());
             if verbose {
@@ -385,11 +393,38 @@ pub fn install_panic_hook(verbose: bool) {
             }
             PANICS.with(|p| {
                 if let Ok(mut p) = p.try_borrow_mut() {
-                    p.push(PanicRecord { message, location, virt_ms, task });
+                    p.push(PanicRecord { message, location, virt_ms, task, via_repo });
                 }
             });
         }));
     });
+}
+
+/// Walks a backtrace from the panic site outwards and returns the first frame of the crate under
+/// test, unless a frame of the harness comes first (then the harness itself called the dependency).
+fn innermost_repo_frame(bt: &str) -> Option<String> {
+    for line in bt.lines() {
+        let l = line.trim_start();
+        // frame lines look like "12: path::to::function"
+        let Some((idx, sym)) = l.split_once(": ") else { continue };
+        if idx.is_empty() || !idx.bytes().all(|b| b.is_ascii_digit()) {
+            continue;
+        }
+        let sym = sym.trim();
+        if sym.starts_with("agsim::") || sym.starts_with("<agsim::") || sym.contains(" as agsim::") {
+            return None;
+        }
+        if sym.starts_with("alpenglow::") || sym.starts_with("<alpenglow::") || sym.contains(" as alpenglow::") || sym.contains("<alpenglow::") {
+            return Some(sym.chars().take(160).collect());
+        }
+    }
+    None
+}
+
+/// `true` iff the panic is attributed to the code under test: it is located in the repository's
+/// sources, or in a dependency that was reached through a function of the repository's crate.
+pub fn panic_in_repo(p: &PanicRecord) -> bool {
+    location_in_repo(&p.location) || p.via_repo.is_some()
 }
 
 /// `true` iff the location string points into the code under test.
